@@ -48,6 +48,13 @@ var topic0 = common.HexToHash("0xc13c13c13c13c13c13c13c13c13c13c13c13c13c13c13c1
 
 const waitTimeout = 15 * time.Second
 
+// After the harness cuts a connection, go-ethereum's rpc.Client (v1.13.5) can leave the call whose write has just
+// completed (or a subscription whose confirmation is just being dispatched) waiting forever: Client.dispatch excludes
+// `lastOp` from cancelAllRequests when the read error overtakes sendDone.  That is a liveness matter of the RPC
+// library, outside this property; an execution in which the client shows no sign of life for hangTimeout after a cut
+// is given up without a conformance verdict.
+const hangTimeout = 5 * time.Second
+
 var debug = os.Getenv("LOGSTREAM_DEBUG") != ""
 
 func dbg(format string, a ...any) {
@@ -628,19 +635,29 @@ func replayOne(b vh.Behaviour) (out behOut) {
 	broken := ""
 	faults := 0
 	expectFatal := false
+	cut := false  // a connection was cut and the client has not been heard of since
+	hung := false // ... and stayed silent for hangTimeout
 
 	needReq := func(typ string) *request {
 		var r *request
 		if stash != nil {
 			r, stash = stash, nil
+		} else if cut {
+			r = w.waitReq(hangTimeout)
 		} else {
 			r = w.waitReq(waitTimeout)
 		}
 		if r == nil {
+			if cut {
+				hung = true
+				broken = "client silent after a cut connection"
+				return nil
+			}
 			div("request", typ, "none within timeout")
 			broken = "no " + typ + " request"
 			return nil
 		}
+		cut = false
 		if r.typ != typ {
 			div("request", typ, r.typ)
 			broken = "unexpected " + r.typ + " request"
@@ -666,15 +683,29 @@ func replayOne(b vh.Behaviour) (out behOut) {
 		}
 	}
 	waitHist := func() (histRes, bool) {
+		d := waitTimeout
+		if cut {
+			d = hangTimeout
+		}
 		select {
 		case r := <-histCh:
 			histCh = nil
+			cut = false
 			return r, true
-		case <-time.After(waitTimeout):
+		case <-time.After(d):
 			broken = "SyncHistory did not return"
-			div("SyncHistory", "returns", "still running")
+			if cut {
+				hung = true
+			} else {
+				div("SyncHistory", "returns", "still running")
+			}
 			return histRes{}, false
 		}
+	}
+	cutNow := func() {
+		time.Sleep(2 * time.Millisecond) // let the client's dispatch loop see its completed write first
+		w.tl.dropAll()
+		cut = true
 	}
 	lastReal := func() (uint64, bool) {
 		g := w.snapshot()
@@ -687,14 +718,22 @@ func replayOne(b vh.Behaviour) (out behOut) {
 		faults++
 		if vh.Str(st, "pc") == "fatal" {
 			expectFatal = true
+			d := waitTimeout
+			if cut {
+				d = hangTimeout
+			}
 			select {
 			case <-w.ongoing:
 				if atomic.LoadInt32(&w.fatal) == 0 {
 					div("fatal", true, "stream closed without Fatal")
 				}
-			case <-time.After(waitTimeout):
-				div("fatal", true, false)
+			case <-time.After(d):
 				broken = "expected Fatal did not happen"
+				if cut {
+					hung = true
+				} else {
+					div("fatal", true, false)
+				}
 			}
 		}
 	}
@@ -787,7 +826,7 @@ func replayOne(b vh.Behaviour) (out behOut) {
 			}
 			checkRange(pending, s.Act)
 			if vh.Str(s.Act, "kind") == "drop" {
-				w.tl.dropAll()
+				cutNow()
 			}
 			pending.reply <- decision{fail: true}
 			pending = nil
@@ -825,7 +864,7 @@ func replayOne(b vh.Behaviour) (out behOut) {
 				<-r.ack
 			} else {
 				if vh.Str(s.Act, "kind") == "drop" {
-					w.tl.dropAll()
+					cutNow()
 				}
 				r.reply <- decision{fail: true}
 				afterFailure(s.State)
@@ -835,7 +874,7 @@ func replayOne(b vh.Behaviour) (out behOut) {
 				pending = needReq("getLogs")
 			}
 		case "SubError":
-			w.tl.dropAll()
+			cutNow()
 			afterFailure(s.State)
 		default:
 			out.err = "unknown action " + name
@@ -851,90 +890,83 @@ func replayOne(b vh.Behaviour) (out behOut) {
 	// spec's chain, so that every block the schedule left behind shows up as a gap on the real stream.
 	finaleOK := true
 	dbg("%s schedule done broken=%q", b.ID, broken)
-	if !expectFatal && atomic.LoadInt32(&w.fatal) == 0 {
+	if !hung && !expectFatal && atomic.LoadInt32(&w.fatal) == 0 {
 		step = len(b.Steps)
 		atomic.StoreInt32(&curStep, int32(step))
-		abandon := false
+		idle := hangTimeout + time.Second // no request, entry or return for this long: stalled
 		if stash != nil {
 			w.f.reqs <- stash
 			stash = nil
 		}
-		if histCh != nil { // a history sync is still running: answer it, then continue as node.go does
-			if pending != nil {
-				pending.reply <- decision{}
-				pending = nil
-			}
-			hd := time.After(3 * waitTimeout)
-			for histCh != nil && !abandon {
-				select {
-				case r := <-histCh:
-					histCh = nil
-					if r.err == nil {
-						realFrom = r.last + 1
-					} else if l, ok := lastReal(); ok {
-						realFrom = l + 1
-					}
-				case r := <-w.f.reqs:
-					r.reply <- decision{}
-				case <-hd:
-					// never run two syncs into one handler: give this execution up (no verdict from it)
-					abandon = true
-				}
-			}
-		}
-		if abandon {
-			out.counters["abandoned"]++
-			out.counters["divergences"]++
-			closed = true
-			w.close()
-			return
-		}
-		if !w.started {
-			w.startOngoing(realFrom)
-		}
-		target := sentinel + follow
-		w.f.setHead(target, true)
 		if pending != nil {
 			pending.reply <- decision{}
 			pending = nil
 		}
-		if stash != nil {
-			w.f.reqs <- stash
-			stash = nil
-		}
-		deadline := time.After(3 * waitTimeout)
-		reached := func() bool {
-			w.mu.Lock()
-			defer w.mu.Unlock()
-			return w.mon.have && w.mon.prevMax >= sentinel
-		}
-	finale:
-		for !reached() {
+		for histCh != nil && finaleOK { // a history sync is still running: answer it, then continue as node.go does
 			select {
-			case r := <-w.f.reqs:
-				r.reply <- decision{}
-				if r.typ == "subscribe" {
-					<-r.ack
-					w.f.setHead(target, true)
+			case r := <-histCh:
+				histCh = nil
+				cut = false
+				if r.err == nil {
+					realFrom = r.last + 1
+				} else if l, ok := lastReal(); ok {
+					realFrom = l + 1
 				}
+			case r := <-w.f.reqs:
+				cut = false
+				r.reply <- decision{}
 			case <-w.notify:
-			case <-w.ongoing:
-				finaleOK = false
-				break finale
-			case <-deadline:
-				finaleOK = false
-				break finale
+			case <-time.After(idle):
+				finaleOK = false // never run two syncs into one handler: the execution ends here
+			}
+		}
+		if finaleOK {
+			if !w.started {
+				w.startOngoing(realFrom)
+			}
+			target := sentinel + follow
+			w.f.setHead(target, true)
+			reached := func() bool {
+				w.mu.Lock()
+				defer w.mu.Unlock()
+				return w.mon.have && w.mon.prevMax >= sentinel
+			}
+		finale:
+			for !reached() {
+				select {
+				case r := <-w.f.reqs:
+					cut = false
+					r.reply <- decision{}
+					if r.typ == "subscribe" {
+						<-r.ack
+						w.f.setHead(target, true)
+					}
+				case <-w.notify:
+				case <-w.ongoing:
+					finaleOK = false
+					break finale
+				case <-time.After(idle):
+					finaleOK = false
+					break finale
+				}
 			}
 		}
 		if !finaleOK {
-			out.counters["finale_stalled"]++
-			if !attack {
-				out.counters["divergences"]++
-				if len(out.div) < 3 {
-					out.div = append(out.div, vh.Divergence{Behaviour: b.ID, Step: step, Field: "finale", Spec: "sentinel block delivered", Real: w.snapshot()})
+			if cut {
+				hung = true
+			} else {
+				out.counters["finale_stalled"]++
+				if !attack {
+					out.counters["divergences"]++
+					if len(out.div) < 3 {
+						out.div = append(out.div, vh.Divergence{Behaviour: b.ID, Step: step, Field: "finale", Spec: "sentinel block delivered", Real: w.snapshot()})
+					}
 				}
 			}
 		}
+	}
+	if hung {
+		out.counters["abandoned_client_hang_after_cut"]++
 	}
 	dbg("%s finale done ok=%v", b.ID, finaleOK)
 	closed = true
@@ -1050,10 +1082,16 @@ func stressOne(seed int64, id string) (out behOut) {
 		}
 		emu.Unlock()
 	}
+	var activity int32
+	cuts := 0
 	w.f.auto = func(r *request) decision {
+		atomic.AddInt32(&activity, 1)
 		fail, drop := mayFail(r.typ == "subscribe")
 		if fail {
 			if drop {
+				fmu.Lock()
+				cuts++
+				fmu.Unlock()
 				w.tl.dropAll()
 			}
 			logEv(fmt.Sprintf("%s[%d,%d] fail cut=%v", r.typ, r.from, r.to, drop))
@@ -1072,6 +1110,9 @@ func stressOne(seed int64, id string) (out behOut) {
 		logEv(fmt.Sprintf("head %d", head))
 		if rng.Intn(5) == 0 {
 			if fail, _ := mayFail(false); fail {
+				fmu.Lock()
+				cuts++
+				fmu.Unlock()
 				w.tl.dropAll()
 				logEv("cut")
 			}
@@ -1081,10 +1122,10 @@ func stressOne(seed int64, id string) (out behOut) {
 	quiet = true
 	fmu.Unlock()
 	target := sentinel + follow
-	deadline := time.After(3 * waitTimeout)
 	tick := time.NewTicker(20 * time.Millisecond)
 	defer tick.Stop()
 	stalled := false
+	lastAct, lastSeen := time.Now(), atomic.LoadInt32(&activity)
 loop:
 	for {
 		w.mu.Lock()
@@ -1096,18 +1137,26 @@ loop:
 		select {
 		case <-tick.C:
 			w.f.setHead(target, true) // a subscription made after the last head needs a head to start fetching
+			if a := atomic.LoadInt32(&activity); a != lastSeen {
+				lastSeen, lastAct = a, time.Now()
+			} else if time.Since(lastAct) > hangTimeout+time.Second {
+				stalled = true
+				break loop
+			}
 		case <-w.notify:
+			lastAct = time.Now()
 		case <-w.ongoing:
-			stalled = true
-			break loop
-		case <-deadline:
 			stalled = true
 			break loop
 		}
 	}
 	if stalled {
-		out.counters["finale_stalled"]++
-		out.counters["divergences"]++
+		if cuts > 0 && atomic.LoadInt32(&w.fatal) == 0 {
+			out.counters["abandoned_client_hang_after_cut"]++ // see hangTimeout
+		} else {
+			out.counters["finale_stalled"]++
+			out.counters["divergences"]++
+		}
 	}
 	if atomic.LoadInt32(&w.fatal) != 0 {
 		out.counters["fatal_observed"]++
